@@ -12,7 +12,7 @@ pub fn def() -> PropertyDef {
     PropertyDef {
         id: "C05",
         level: "exploration",
-        scenarios: vec![Box::new(CallHistory), Box::new(Invariance), Box::new(SamplerHistory), Box::new(PanicFault)],
+        scenarios: vec![Box::new(CallHistory), Box::new(Interleaved), Box::new(Invariance), Box::new(SamplerHistory), Box::new(PanicFault)],
         assumptions: vec!["the Conditional is the harness's recording stub: every call (index, given) is logged and every returned value is unique, so each write is attributable to one call"],
     }
 }
@@ -149,6 +149,112 @@ fn call_history<S: GElt + ndarray::LinalgScalar>(p: &Value, ws: bool) -> Outcome
     }
     o
 }
+/// Several chains of different dimension (and element type) alive at once and stepped in a seeded
+/// interleaving on one thread: every step of every chain is a full sweep of ITS coordinates over ITS
+/// freshest state, whatever other chains the process holds.
+struct Interleaved;
+impl Scenario for Interleaved {
+    fn name(&self) -> &'static str {
+        "gibbs_interleaved_chains"
+    }
+    fn runs(&self, tier: Tier) -> u64 {
+        tier.pick(6_000, 200_000)
+    }
+    fn generate(&self, g: &mut Gen, _t: Tier, _i: u64) -> Value {
+        let n = g.usize(2, 4);
+        let dims: Vec<usize> = (0..n).map(|_| crate::core::size(g, 1, 20, 130)).collect();
+        let order: Vec<usize> = (0..g.usize(n, 24)).map(|_| g.usize(0, n - 1)).collect();
+        json!({"dims": dims, "ints": (0..n).map(|_| g.bool(1, 3)).collect::<Vec<_>>(), "order": order})
+    }
+    fn execute(&self, p: &Value, ws: bool) -> Outcome {
+        let mut o = Outcome::default();
+        let dims: Vec<usize> = p["dims"].as_array().unwrap().iter().map(|v| v.as_u64().unwrap() as usize).collect();
+        let ints: Vec<bool> = p["ints"].as_array().unwrap().iter().map(|v| v.as_bool().unwrap_or(false)).collect();
+        let order: Vec<usize> = p["order"].as_array().unwrap().iter().map(|v| v.as_u64().unwrap() as usize).collect();
+        enum Ch {
+            F(GibbsMarkovChain<f64, RecCond>),
+            I(GibbsMarkovChain<i32, RecCond>),
+        }
+        let mut logs = vec![];
+        let mut chains: Vec<Ch> = vec![];
+        let mut before: Vec<Vec<f64>> = vec![];
+        for (k, d) in dims.iter().enumerate() {
+            let log = Arc::new(Mutex::new(vec![]));
+            let cond = RecCond { tag: k as u64 + 1, log: log.clone(), calls: 0, nan_answers: false };
+            if ints[k] {
+                let init: Vec<i32> = (0..*d).map(|j| <i32 as GElt>::of(9000 + j as u64)).collect();
+                before.push(init.iter().map(|x| x.f()).collect());
+                chains.push(Ch::I(GibbsMarkovChain::new(cond, &init)));
+            } else {
+                let init: Vec<f64> = (0..*d).map(|j| <f64 as GElt>::of(9000 + j as u64)).collect();
+                before.push(init.clone());
+                chains.push(Ch::F(GibbsMarkovChain::new(cond, &init)));
+            }
+            logs.push(log);
+        }
+        let mut h = 0u64;
+        for &k in &order {
+            if k >= chains.len() {
+                continue;
+            }
+            logs[k].lock().unwrap().clear();
+            let after: Vec<f64> = match &mut chains[k] {
+                Ch::F(c) => c.step().iter().map(|x| x.f()).collect(),
+                Ch::I(c) => c.step().iter().map(|x| x.f()).collect(),
+            };
+            let calls = logs[k].lock().unwrap().clone();
+            check_step(&mut o, dims[k], &before[k], &calls, &after, "GibbsMarkovChain::step[several chains alive]");
+            // no other chain's conditional may have been asked
+            for (j, l) in logs.iter().enumerate() {
+                if j != k && l.lock().unwrap().iter().any(|c| c.0 != j as u64 + 1) {
+                    o.violate("foreign_call", "GibbsMarkovChain::step:foreign-conditional", format!("a step of chain {k} reached the conditional of chain {j}"));
+                }
+            }
+            for c in &calls {
+                h = mix(h, c.1 as u64 + 131 * k as u64);
+            }
+            before[k] = after;
+            o.work += 1;
+            if !o.violations.is_empty() {
+                break;
+            }
+        }
+        o.hash = mix(h, str_hash(&p.to_string()));
+        o.nontrivial = dims.iter().any(|d| *d >= 2);
+        o.count("probe_chains_of_different_dimension", (dims.iter().collect::<std::collections::BTreeSet<_>>().len() >= 2) as u64);
+        if ws {
+            o.sample = Some(json!({"dims": dims, "steps": order.len()}));
+        }
+        o
+    }
+    fn shrink(&self, p: &Value) -> Vec<Value> {
+        let mut out = vec![];
+        let order = p["order"].as_array().unwrap();
+        if order.len() > 1 {
+            out.push(with(p, "order", Value::Array(order[..order.len() - 1].to_vec())));
+            out.push(with(p, "order", Value::Array(order[1..].to_vec())));
+        }
+        let dims = p["dims"].as_array().unwrap();
+        for i in 0..dims.len() {
+            let cur = dims[i].as_u64().unwrap();
+            for cand in [1, cur / 2, cur.saturating_sub(1)] {
+                if cand >= 1 && cand < cur {
+                    let mut d = dims.clone();
+                    d[i] = json!(cand);
+                    out.push(with(p, "dims", Value::Array(d)));
+                }
+            }
+        }
+        out
+    }
+    fn rule(&self) -> &'static str {
+        "one run = 2..4 chains of dimensions 1..20 (or at a dictionary threshold up to 130), f64 or i32 states, alive at once and stepped 2..24 times in a seeded interleaving on one thread; every step checked against the sweep model of its own chain; distinct = hash of (call indices, parameters)"
+    }
+    fn components(&self) -> Value {
+        json!({"real": ["GibbsMarkovChain::new/step"], "stub": ["recording conditional"]})
+    }
+}
+
 impl Scenario for CallHistory {
     fn name(&self) -> &'static str {
         "gibbs_call_history"
@@ -469,7 +575,17 @@ impl Scenario for PanicFault {
         }));
         o.count("fault_conditional_panicked", r.is_err() as u64);
         if r.is_ok() {
-            o.harness_error = Some("injected conditional failure did not fire".into());
+            // the failing call is call number fc <= d of this step: a full sweep must reach it. If the
+            // preceding steps were ordinary sweeps (checked above) and the failure still did not fire, this
+            // step asked the conditional fewer than fc times; otherwise the fault plan itself is off.
+            let n_calls = log.lock().unwrap().len();
+            if o.violations.is_empty() && n_calls < fc {
+                o.violate("call_count", "GibbsMarkovChain::step:calls-per-step", format!("{n_calls} conditional calls in a step of a {d}-dimensional chain (the injected failure at call {fc} was never reached)"));
+            } else if o.violations.is_empty() {
+                o.harness_error = Some("injected conditional failure did not fire".into());
+            }
+            o.nontrivial = true;
+            o.hash = str_hash(&p.to_string());
             return o;
         }
         let msg = mcmc_sim::sim::take_last_panic().unwrap_or_default();
